@@ -17,9 +17,16 @@ static void body(int t){ for(char *p=prog[t]; *p; p++){
 	else if(*p=='D'){ vs_call("deq",0); struct cds_wfcq_node *x=__cds_wfcq_dequeue_blocking(&h,&tl); vs_ret("deq",(unsigned long)x); }
 	else if(*p=='d'){ vs_call("deqnb",0); struct cds_wfcq_node *x=__cds_wfcq_dequeue_nonblocking(&h,&tl); vs_ret("deqnb",x==CDS_WFCQ_WOULDBLOCK?(unsigned long)-1:(unsigned long)x); }
 	else if(*p=='w'){ int st=0; vs_call("deqs",0); struct cds_wfcq_node *x=__cds_wfcq_dequeue_with_state_blocking(&h,&tl,&st); vs_note("state %d",st); vs_ret("deqs",(unsigned long)x); }
-	else if(*p=='s'||*p=='n'){ struct cds_wfcq_head h2; struct cds_wfcq_tail t2; struct cds_wfcq_node *x; char buf[256]; int l=0; buf[0]=0; vs_quiet_begin(); cds_wfcq_init(&h2,&t2); vs_quiet_end();
+	else if(*p=='s'||*p=='n'){ /* a fresh private queue per splice: its memory is never reused while an old store to it may still sit in the simulated store buffer */
+		static struct { struct cds_wfcq_head h; struct cds_wfcq_tail t; } PQ[64]; static int npq; if(npq>=64) continue;
+		struct cds_wfcq_head *ph2=&PQ[npq].h; struct cds_wfcq_tail *pt2=&PQ[npq].t; npq++;
+		#define h2 (*ph2)
+		#define t2 (*pt2)
+		struct cds_wfcq_node *x; char buf[256]; int l=0; buf[0]=0; vs_quiet_begin(); cds_wfcq_init(&h2,&t2); vs_quiet_end();
 		vs_call(*p=='s'?"splice":"splicenb",0); enum cds_wfcq_ret r = *p=='s' ? __cds_wfcq_splice_blocking(&h2,&t2,&h,&tl) : __cds_wfcq_splice_nonblocking(&h2,&t2,&h,&tl);
 		if(r!=CDS_WFCQ_RET_WOULDBLOCK) __cds_wfcq_for_each_blocking(&h2,&t2,x){ l+=sprintf(buf+l,"%d,",(int)(x-n)); } vs_note("chain %s",buf); vs_ret(*p=='s'?"splice":"splicenb",(unsigned long)r); }
+		#undef h2
+		#undef t2
 	else if(*p=='e'){ vs_call("empty",0); int r=cds_wfcq_empty(&h,&tl); vs_ret("empty",r); }
 	else if(*p=='I'){ struct cds_wfcq_node *x; char buf[256]; int l=0; buf[0]=0; vs_call("iter",0); __cds_wfcq_for_each_blocking(&h,&tl,x){ l+=sprintf(buf+l,"%d,",(int)(x-n)); } vs_note("chain %s",buf); vs_ret("iter",0); } } }
 int main(int argc,char**argv){
